@@ -1,6 +1,6 @@
 From Coq Require Import ZArith List.
 From Coq Require Import Sorted.
-From PV Require Import Base.U64 C07.C07_Model C07.C07_Arith C07.C07_Lists C07.C07_SPSC_Model C07.C07_MPMC_Model C07.C07_Proofs.
+From PV Require Import Base.U64 C07.C07_Model C07.C07_Arith C07.C07_Lists C07.C07_SPSC_Model C07.C07_MPMC_Model C07.C07_Chan_Model C07.C07_Proofs.
 Import ListNotations.
 Local Open Scope Z_scope.
 
@@ -119,3 +119,16 @@ Definition mpmc_q_reporting_statement : Prop :=
   forall c, cfg_ok c -> forall s scripts, 0 <= s -> forall st p, mreach c (mpmc_init c s scripts) st -> nowrap c st ->
   forall prev t, t_pc (m_thr st p) = Some (MPopLdH2 prev t) -> m_head st = prev -> check_empty (m_head st) t = true ->
   exists st1, mreach c (mpmc_init c s scripts) st1 /\ m_gh st1 = m_gt st1 /\ m_gh st1 = m_gh st.
+
+(* ===== RingChannel protocol model (send<PhotonPause> / recv / notify_senders over an atomic FIFO and counter
+   semaphores): every E3 replay step is a step of the transition system the statements below are about. ===== *)
+Theorem chan_e3_runs_are_runs :
+  forall cap Y st0 st p f, creach cap Y st0 st -> creach cap Y st0 (fst (chan_e3step cap Y st p f)).
+Proof. exact chan_e3step_reach. Qed.
+Print Assumptions chan_e3_runs_are_runs.
+
+(* NOT proved in Coq (notes/C07.md "Partial"): C07_Chan_Proofs.chan_no_lost_wakeup_statement (no reachable state of
+   the channel protocol is a lost wake-up, consumers and senders) — checked instead by the oracle after every step
+   of the real code's log on exhaustive small schedules — and C07_Chan_Proofs.batch_q_statement (batch queue). *)
+Definition chan_no_lost_wakeup_unproved : Prop := chan_no_lost_wakeup_statement.
+Definition batch_q_unproved : Prop := batch_q_statement.
